@@ -24,6 +24,7 @@ type hashmap struct {
 	order   []*entry         // insertion order, including tombstones
 	nsym    int              // number of live entries whose key contains symbolic scalars
 	length  int
+	cell    value            // identity of the map as one shared location for the lockset analysis (frame.go)
 }
 
 // makeMap returns an empty initialized map of key type kt.
@@ -60,6 +61,9 @@ func (m *hashmap) find(k value) *entry {
 	if m == nil {
 		return nil
 	}
+	if raceOn {
+		recordMapAccess(m, false)
+	}
 	if containsSym(k) {
 		for _, e := range m.order {
 			if !e.deleted && decideBool(equalsV(m.keyType, k, e.key)) {
@@ -90,6 +94,9 @@ func (m *hashmap) delete(k value) {
 		return
 	}
 	logMapWrite(m)
+	if raceOn {
+		recordMapAccess(m, true)
+	}
 	logUndo(func() { m.undelete(e) })
 	e.deleted = true
 	m.length--
@@ -128,6 +135,9 @@ func (m *hashmap) lookup(k value) value {
 
 func (m *hashmap) insert(k value, v value) {
 	logMapWrite(m)
+	if raceOn {
+		recordMapAccess(m, true)
+	}
 	if e := m.find(k); e != nil {
 		old := e.value
 		logUndo(func() { e.value = old })
